@@ -217,6 +217,7 @@ type Result struct {
 	Infra   string         `json:"infra,omitempty"`
 	WallUS  int64          `json:"wall_us,omitempty"`
 	Frames  [][2]int       `json:"frames,omitempty"`
+	Sweep   bool           `json:"sweep,omitempty"`
 	States  []uint64       `json:"states,omitempty"`
 	Trans   []uint64       `json:"trans,omitempty"`
 }
@@ -352,6 +353,7 @@ func Execute(p *Profile, tier string, seed uint64, t *tape.Tape, index int, hang
 		res.Known = r.KnownHits
 	}
 	res.Trace = r.trace
+	res.Sweep = r.SweepCase >= 0
 	res.States = r.States
 	res.Trans = r.Trans
 	res.Tape = t.Values()
